@@ -34,6 +34,7 @@ type Session struct {
 	Shortened bool         // some insert made the head number go down
 	Rewound   map[int]bool // blocks that were canonical above a SetHead target
 	Mixed     bool         // headers were fed to a full chain: the C03 statement has no single head any more
+	Forgiven  map[int]bool // blocks above the head after a Rollback: stored and validated but deliberately un-headed, until re-offered
 	Pruning   bool         // session "p": a pruning (non-archive) node; the archive-only model is not consulted, the direct oracle runs alone
 }
 
@@ -73,7 +74,7 @@ func (r *Runner) open(s *Session) error {
 }
 
 func (r *Runner) newSession(name string) *Session {
-	s := &Session{Name: name, DB: NewRecDB(), Eligible: map[int]bool{0: true}, HdrElig: map[int]bool{0: true}, Rewound: map[int]bool{}, Pruning: name == "p"}
+	s := &Session{Name: name, DB: NewRecDB(), Eligible: map[int]bool{0: true}, HdrElig: map[int]bool{0: true}, Rewound: map[int]bool{}, Forgiven: map[int]bool{}, Pruning: name == "p"}
 	r.T.Gspec.MustCommit(s.DB)
 	s.DB.Take() // the genesis writes are the model's initial disk
 	g := r.T.Blocks[0]
@@ -308,6 +309,16 @@ func (r *Runner) Apply(k int, op OpSpec) {
 		case "sethead":
 			ask = fmt.Sprintf("sethead %s %d", r.sid(s.Name), op.N)
 			impl = errKind(s.BC.SetHead(op.N)) + " 0"
+		case "rollback":
+			hashes := make([]common.Hash, len(op.Nodes))
+			strs := make([]string, len(op.Nodes))
+			for i, n := range op.Nodes {
+				hashes[i] = t.Blocks[n].Hash()
+				strs[i] = fmt.Sprint(t.Id(n))
+			}
+			ask = fmt.Sprintf("rollback %s %s", r.sid(s.Name), strings.Join(strs, ","))
+			s.BC.Rollback(hashes)
+			impl = "ok 0"
 		case "reopen":
 			ask = "reopen " + r.sid(s.Name)
 			s.BC.Stop()
@@ -353,6 +364,13 @@ func (r *Runner) Apply(k int, op OpSpec) {
 	class := op.Sess + ":" + op.Kind
 	switch op.Kind {
 	case "insert":
+		for _, n := range op.Nodes { // a re-offered branch counts again
+			if t.Spec[n].Valid && (s.Eligible[n] || s.Eligible[t.Spec[n].Parent]) {
+				for a := n; a != 0; a = t.Spec[a].Parent {
+					delete(s.Forgiven, a)
+				}
+			}
+		}
 		if s.Name == "f" || s.Name == "m" || s.Name == "p" {
 			for _, n := range op.Nodes {
 				if t.Spec[n].Valid && s.Eligible[t.Spec[n].Parent] {
@@ -395,6 +413,19 @@ func (r *Runner) Apply(k int, op OpSpec) {
 		}
 		if !strings.HasPrefix(impl, "ok") {
 			class += ":" + strings.Fields(impl)[0]
+		}
+	case "rollback":
+		for b := headBefore; b != 0 && b != headAfter && t.Num[b] > t.Num[headAfter]; b = t.Spec[b].Parent {
+			s.Forgiven[b] = true
+		}
+		// the head was lowered on purpose: whatever is heavier than it now (side branches included)
+		// does not count against it until it is offered again
+		if headAfter != headBefore {
+			for i := range t.Blocks {
+				if s.Eligible[i] && t.TrueTd[i].Cmp(t.TrueTd[headAfter]) > 0 {
+					s.Forgiven[i] = true
+				}
+			}
 		}
 	case "sethead":
 		for _, from := range []int{headBefore, hdrBefore} {
@@ -558,14 +589,14 @@ func (r *Runner) oracleC02(s *Session, k int, op OpSpec, headBefore, hdrBefore i
 			r.C.Violate("head-unknown-block/"+tag, "the head is not a block that was delivered", r.replay(k, nil))
 			return
 		}
-		if t.TrueTd[head].Cmp(t.TrueTd[headBefore]) < 0 {
+		if op.Kind != "rollback" && t.TrueTd[head].Cmp(t.TrueTd[headBefore]) < 0 {
 			r.C.Violate("head-td-decreased/"+tag, "the head's total difficulty decreased", r.replay(k, map[string]interface{}{"before": headBefore, "after": head}))
 		}
 		if !s.Eligible[head] {
 			r.C.Violate("head-not-validated/"+tag, "the head is not a fully validated delivered block", r.replay(k, map[string]interface{}{"head": head}))
 		}
 		for i := range t.Blocks {
-			if s.Eligible[i] && t.TrueTd[i].Cmp(t.TrueTd[head]) > 0 {
+			if s.Eligible[i] && !s.Forgiven[i] && t.TrueTd[i].Cmp(t.TrueTd[head]) > 0 {
 				r.C.Violate("head-not-heaviest/"+tag, "a fully validated delivered block is heavier than the head", r.replay(k, map[string]interface{}{"head": head, "heavier": i}))
 				break
 			}
@@ -706,6 +737,9 @@ func (r *Runner) oracleC03(s *Session, k int, op OpSpec) {
 			continue
 		}
 		x, known := t.ByHash[got]
+		if known && s.Forgiven[x] {
+			continue // Rollback only moves the head pointers: the rolled-back blocks keep their number entries
+		}
 		if full && s.Shortened && known && t.Num[x] == n && !t.IsAncestor(x, head) {
 			r.C.Violate("reorg-shorter-heavier-stale-canon", "after a reorganisation to a shorter but heavier branch the abandoned blocks stay reachable by number above the new head (GetBlockByNumber(head+k))",
 				r.replay(k, map[string]interface{}{"height": n, "head_height": t.Num[head], "stale_node": x}))
@@ -740,6 +774,9 @@ func (r *Runner) oracleC03(s *Session, k int, op OpSpec) {
 			continue
 		}
 		x, known := t.ByHash[lb]
+		if known && s.Forgiven[x] {
+			continue // same: Rollback keeps the lookup entries of the rolled-back blocks
+		}
 		if known && s.Rewound[x] {
 			r.C.Violate("sethead-leaves-lookups-receipts", "SetHead deletes the bodies of rewound blocks but keeps their transaction lookup entries and receipts (GetTxLookupEntry / GetReceipt still resolve a transaction that is in no canonical block)",
 				r.replay(k, map[string]interface{}{"tx": ti + 1, "entry_points_at_node": x, "receipt_resolves": rc != nil, "transaction_resolves": tx != nil, "lookup_index": li}))
